@@ -7,7 +7,7 @@ set -u
 export VROOT="${VROOT:-/verif}"
 id="$1"; shift
 checks="$id $*"
-src=${SEEDSRC:-/tmp/seed/out}/$id
+src=${SEEDSRC:-/tmp/seed/out}/$id${SEEDSRCTAG:-}
 tag="${SEEDTAG:-}"
 export GOFLAGS=-mod=mod GOPROXY=off GOSUMDB=off GOTOOLCHAIN=local
 [ -s "$src/patch.diff" ] && [ -s "$src/demo_test.go" ] || { echo "missing deliverables in $src"; exit 3; }
